@@ -36,14 +36,14 @@ type wmsg struct {
 }
 
 type wcall struct {
-	actor, call int
-	msgs        []*wmsg
-	invoke, ret int
-	retAt       time.Duration
-	err         error
-	returned    bool
-	cancelled   bool // the actor's context was cancelled / expired
-	expectReject string // "" | "toolarge" | "topic"
+	actor, call  int
+	msgs         []*wmsg
+	invoke, ret  int
+	retAt        time.Duration
+	err          error
+	returned     bool
+	cancelled    bool          // the actor's context was cancelled / expired
+	expectReject string        // "" | "toolarge" | "topic"
 	deadline     time.Duration // simulated instant at which the call's context ends (0 = none)
 	afterClose   bool          // invoked after Writer.Close had returned
 }
@@ -83,23 +83,23 @@ func msgID(v []byte) string {
 }
 
 type writerState struct {
-	s      *Sim
-	cl     *Cluster
-	w      *kafka.Writer
-	tr     *kafka.Transport
-	byID   map[string]*wmsg
-	calls  []*wcall
-	batchSize  int
-	batchBytes int64
-	async  bool
-	acks   kafka.RequiredAcks
-	writeTimeout time.Duration
-	timingFaults bool
-	closeInvoked int
-	closeReturned int
+	s                               *Sim
+	cl                              *Cluster
+	w                               *kafka.Writer
+	tr                              *kafka.Transport
+	byID                            map[string]*wmsg
+	calls                           []*wcall
+	batchSize                       int
+	batchBytes                      int64
+	async                           bool
+	acks                            kafka.RequiredAcks
+	writeTimeout                    time.Duration
+	timingFaults                    bool
+	closeInvoked                    int
+	closeReturned                   int
 	closeInvokedAt, closeReturnedAt time.Duration
-	raceClose bool
-	seenReq int
+	raceClose                       bool
+	seenReq                         int
 	// per (topic,partition): applied request indexes in log order
 }
 
@@ -522,18 +522,18 @@ func writerScenario(s *Sim, params map[string]string) {
 		DialTimeout: 3 * time.Second, IdleTimeout: Pick(t, "cfg", 30*time.Second, 500*time.Millisecond)}
 	multiTopic := ntop > 1 || t.Intn("cfg", 3) == 0
 	w := &kafka.Writer{
-		Addr:         kafka.TCP(cl.Brokers[0].Addr()),
-		Transport:    tr,
-		BatchSize:    st.batchSize,
-		BatchBytes:   st.batchBytes,
-		BatchTimeout: Pick(t, "cfg", time.Millisecond, 10*time.Millisecond, 50*time.Millisecond, time.Second),
-		Logger:       kafka.LoggerFunc(func(string, ...interface{}) {}),
-		MaxAttempts:  Pick(t, "cfg", 1, 2, 3, 4, 10),
-		RequiredAcks: st.acks,
-		Async:        st.async,
-		Compression:  kafka.Compression(t.Intn("cfg", 5)),
-		WriteTimeout: st.writeTimeout,
-		ReadTimeout:  Pick(t, "cfg", 10*time.Second, time.Second),
+		Addr:            kafka.TCP(cl.Brokers[0].Addr()),
+		Transport:       tr,
+		BatchSize:       st.batchSize,
+		BatchBytes:      st.batchBytes,
+		BatchTimeout:    Pick(t, "cfg", time.Millisecond, 10*time.Millisecond, 50*time.Millisecond, time.Second),
+		Logger:          kafka.LoggerFunc(func(string, ...interface{}) {}),
+		MaxAttempts:     Pick(t, "cfg", 1, 2, 3, 4, 10),
+		RequiredAcks:    st.acks,
+		Async:           st.async,
+		Compression:     kafka.Compression(t.Intn("cfg", 5)),
+		WriteTimeout:    st.writeTimeout,
+		ReadTimeout:     Pick(t, "cfg", 10*time.Second, time.Second),
 		WriteBackoffMin: Pick(t, "cfg", 100*time.Millisecond, 10*time.Millisecond),
 		WriteBackoffMax: Pick(t, "cfg", time.Second, 200*time.Millisecond),
 	}
